@@ -848,7 +848,7 @@ func (st *State) convert(v Value, from, to types.Type) Value {
 				src := st.byteTerms(x.Ptr, x.Len, "string conversion")
 				for i, b := range src {
 					if !(b.IsConst() && b.C == 0) {
-						o.bytes[i] = b
+						o.setByte(i, b)
 					}
 				}
 			}
@@ -866,7 +866,7 @@ func (st *State) convert(v Value, from, to types.Type) Value {
 					src := st.byteTerms(x.Ptr, x.Len, "string conversion")
 					for i, b := range src {
 						if !(b.IsConst() && b.C == 0) {
-							o.bytes[i] = b
+							o.setByte(i, b)
 						}
 					}
 				}
